@@ -243,6 +243,11 @@ class DI:
 			raise TypeError(f'Merging not allowed. not related. self: {self.__class__}, other: {other.__class__}')
 
 		di = self._clone()
+		# マージ対象が登録しているシンボルは、未解決(インスタンス無し・遅延定義)の場合も含めてマージ対象を優先
+		for symbol in [symbol for symbol in di.__injectors if other.can_resolve(symbol)]:
+			del di.__injectors[symbol]
+			di.__instances.pop(symbol, None)
+
 		di.__instances = {**di.__instances, **other.__instances}
 		di.__injectors = {**di.__injectors, **other.__injectors}
 		return di
